@@ -1,5 +1,5 @@
 """C16 -- the neighbour engine always reflects exactly the currently positioned residues."""
-from vlib.framework import PUnit, LUnit, BUnit
+from vlib.framework import PUnit, LUnit, BUnit, LeanUnit
 from contracts import nonbond as N
 from bounded import engine_histories
 from contracts import engine_rep as ER
@@ -10,6 +10,7 @@ def build(tier, seed):
         PUnit("lj-force", [N.LJ], N.REG),
         LUnit("lj-derivative-sympy", N.lemma_lj_derivative),
         PUnit("pbc-min-dist", [N.PBC_MIN_DIST], N.REG),
+        LeanUnit("frac-schemas-certificate", "lean/Frac.lean"),
         LUnit("min-image-laws", N.lemma_min_image_laws),
         LUnit("min-image-scaling", N.lemma_min_image_scaling),
         LUnit("norm-monotone", N.lemma_norm_monotone),
